@@ -3855,6 +3855,23 @@ let nx_edges g =
 let varlike_id s =
   (&&) (negb (head_is '`' s)) (has_char '[' s)
 
+(** val idx_text : char list -> char list -> char list -> char list **)
+
+let idx_text w1 inner w2 =
+  append ('['::[]) (append w1 (append inner (append w2 (']'::[]))))
+
+(** val bare_follow : char list -> bool **)
+
+let bare_follow after =
+  (&&) ((&&) (head_not is_fnc after) (head_not (fun c -> (=) c '[') after))
+    (negb (head_is '(' (skip_ws after)))
+
+(** val brk_text :
+    char -> char -> char list -> char list -> char list -> char list **)
+
+let brk_text op cl w1 name w2 =
+  op::(append w1 (append name (append w2 (cl::[]))))
+
 (** val wsn : bool -> char list -> bool **)
 
 let rec wsn prev_space = function
@@ -3881,17 +3898,40 @@ let rec no_ws_close = function
 let normal t =
   (&&) ((&&) (wsn false t) (no_open_ws false t)) (no_ws_close t)
 
+(** val cont_scan : nat -> char list -> bool **)
+
+let rec cont_scan n0 = function
+| [] -> Nat.eqb n0 O
+| c::r ->
+  if (=) c '('
+  then cont_scan (S n0) r
+  else if (=) c ')'
+       then (match n0 with
+             | O -> false
+             | S m -> cont_scan m r)
+       else if (=) c nl
+            then (&&) (Nat.ltb O n0) (cont_scan n0 r)
+            else if is_linesep c then false else cont_scan n0 r
+
 (** val dz : z -> char list **)
 
 let dz k =
   if Z.ltb Z0 k then append ('+'::[]) (string_of_Z k) else string_of_Z k
 
-type layout = char list -> pidx -> (char list * char list) * bool
+type tstyle =
+| SVar
+| SPar of char list * char list
+| SErr of char list * char list
+
+type tlay = { lstyle : tstyle;
+              lindex : ((char list * char list) * bool) option }
+
+type layout = char list -> pidx -> tlay
 
 (** val canon : layout **)
 
 let canon _ _ =
-  (([], []), true)
+  { lstyle = SVar; lindex = (Some (([], []), true)) }
 
 (** val ibody : bool -> pidx -> char list **)
 
@@ -3899,15 +3939,29 @@ let ibody plus = function
 | IInt k -> if plus then dz k else string_of_Z k
 | IStr s -> s
 
+(** val style_text : tstyle -> char list -> char list **)
+
+let style_text s name =
+  match s with
+  | SVar -> name
+  | SPar (w1, w2) -> brk_text '{' '}' w1 name w2
+  | SErr (w1, w2) -> brk_text '<' '>' w1 name w2
+
+(** val index_text :
+    ((char list * char list) * bool) option -> pidx -> char list **)
+
+let index_text ix i =
+  match ix with
+  | Some p ->
+    let (p0, plus) = p in let (w1, w2) = p0 in idx_text w1 (ibody plus i) w2
+  | None -> []
+
 (** val dtext : layout -> ntok -> char list **)
 
 let dtext lay x = match x with
 | NTerm (name, i) ->
-  let (p, plus) = lay name i in
-  let (w1, w2) = p in
-  append name
-    (append ('['::[])
-      (append w1 (append (ibody plus i) (append w2 (']'::[])))))
+  append (style_text (lay name i).lstyle name)
+    (index_text (lay name i).lindex i)
 | _ -> ntok_text x
 
 (** val dflat : layout -> ntok list -> char list **)
@@ -3963,18 +4017,41 @@ let rec ttemplate = function
    | NChr c -> c::(ttemplate r)
    | _ -> append ('{'::('}'::[])) (ttemplate r))
 
+(** val style_ok : tstyle -> char list -> bool **)
+
+let style_ok s name =
+  match s with
+  | SVar -> kw_free name
+  | SPar (w1, w2) -> (&&) (all_chars is_space w1) (all_chars is_space w2)
+  | SErr (w1, w2) -> (&&) (all_chars is_space w1) (all_chars is_space w2)
+
+(** val index_ok :
+    tstyle -> ((char list * char list) * bool) option -> pidx -> char list ->
+    bool **)
+
+let index_ok s ix i rest =
+  match ix with
+  | Some p ->
+    let (p0, plus) = p in
+    let (w1, w2) = p0 in
+    (&&) ((&&) (idx_ok (ibody plus i)) (all_chars is_space w1))
+      (all_chars is_space w2)
+  | None ->
+    (&&) (match i with
+          | IInt z0 -> Z.eqb z0 Z0
+          | IStr _ -> false)
+      (match s with
+       | SVar -> bare_follow rest
+       | _ -> head_not (fun c -> (=) c '[') rest)
+
 (** val dtok_ok : layout -> bool -> ntok -> char list -> bool **)
 
 let dtok_ok lay pw x rest =
   match x with
   | NTerm (name, i) ->
-    let (p, plus) = lay name i in
-    let (w1, w2) = p in
     (&&)
-      ((&&)
-        ((&&)
-          ((&&) ((&&) (is_ident name) (kw_free name)) (idx_ok (ibody plus i)))
-          (all_chars is_space w1)) (all_chars is_space w2))
+      ((&&) ((&&) (is_ident name) (style_ok (lay name i).lstyle name))
+        (index_ok (lay name i).lstyle (lay name i).lindex i rest))
       (match i with
        | IInt k -> negb (Nat.ltb int_max_str_digits (count_digits (dz k)))
        | IStr s -> (||) (quoted_by '\'' s) (quoted_by '"' s))
@@ -3989,16 +4066,39 @@ let rec dwf_k lay pw l k =
     (&&) (dtok_ok lay pw x (append (dflat lay r) k))
       (dwf_k lay (last_word pw (dtext lay x)) r k)
 
-(** val text_char_ok : char -> bool **)
+(** val nobrace : ntok list -> bool **)
 
-let text_char_ok c =
-  (&&)
-    ((&&) ((&&) (negb (is_linesep c)) (negb ((=) c '#'))) (negb ((=) c '{')))
-    (negb ((=) c '}'))
+let nobrace l =
+  forallb (fun x ->
+    match x with
+    | NChr c -> (&&) (negb ((=) c '{')) (negb ((=) c '}'))
+    | _ -> true) l
 
-(** val dq_ok : layout -> neq -> bool **)
+(** val whole_toks : neq -> ntok list **)
 
-let dq_ok lay q =
+let whole_toks q =
+  app q.nlhs ((NChr '=') :: q.nrhs)
+
+(** val lhs_lay_ok : tlay -> z -> bool **)
+
+let lhs_lay_ok l ky =
+  match l.lstyle with
+  | SVar ->
+    (match l.lindex with
+     | Some p ->
+       let (p0, _) = p in
+       let (s, s1) = p0 in
+       (match s with
+        | [] -> (match s1 with
+                 | [] -> true
+                 | _::_ -> false)
+        | _::_ -> false)
+     | None -> Z.eqb ky Z0)
+  | _ -> false
+
+(** val dq_ok_ws : layout -> neq -> bool **)
+
+let dq_ok_ws lay q =
   match q.nlhs with
   | [] -> false
   | n0 :: ws ->
@@ -4012,29 +4112,28 @@ let dq_ok lay q =
                 ((&&)
                   ((&&)
                     ((&&)
-                      ((&&) ((&&) (is_ident y) (kw_free y))
-                        (negb
-                          (Nat.ltb int_max_str_digits (count_digits (dz ky)))))
-                      (let (p, _) = lay y (IInt ky) in
-                       let (w1, w2) = p in
-                       (match w1 with
-                        | [] -> (match w2 with
-                                 | [] -> true
-                                 | _::_ -> false)
-                        | _::_ -> false)))
-                    (forallb (fun x ->
-                      match x with
-                      | NChr c -> is_space c
-                      | _ -> false) ws)) (dwf_k lay false q.nrhs []))
-                (all_chars text_char_ok (denorm_text lay q)))
-              (match count_parens O (denorm_text lay q) with
-               | Some n1 -> (match n1 with
-                             | O -> true
-                             | S _ -> false)
-               | None -> false))
-            (normal (ttemplate (app q.nlhs ((NChr '=') :: q.nrhs))))
+                      ((&&)
+                        ((&&) ((&&) (is_ident y) (kw_free y))
+                          (negb
+                            (Nat.ltb int_max_str_digits
+                              (count_digits (dz ky)))))
+                        (lhs_lay_ok (lay y (IInt ky)) ky))
+                      (forallb (fun x ->
+                        match x with
+                        | NChr c -> is_space c
+                        | _ -> false) ws)) (dwf_k lay false q.nrhs []))
+                  (cont_scan O (denorm_text lay q)))
+                (negb (has_char '#' (denorm_text lay q))))
+              (nobrace (whole_toks q)))
+            (Nat.eqb (count_char '{' (denorm_text lay q))
+              (count_char '}' (denorm_text lay q)))
         | IStr _ -> false)
      | _ -> false)
+
+(** val dq_ok : layout -> neq -> bool **)
+
+let dq_ok lay q =
+  (&&) (dq_ok_ws lay q) (normal (ttemplate (whole_toks q)))
 
 (** val dq_ok_canon : neq -> bool **)
 
